@@ -116,7 +116,9 @@ def edit_torrent(metafile: str, args: dict) -> dict:
         elif isinstance(val, list):
             meta["httpseeds"] = val
 
-    meta["info"] = info
+    # bencoded dictionaries must have their keys sorted
+    meta["info"] = dict(sorted(info.items()))
+    meta = dict(sorted(meta.items()))
     # write the new file next to the old one and swap it in, so that the
     # metafile is never missing or half written if this fails part way
     tempname = str(metafile) + ".tmp~"
